@@ -253,8 +253,8 @@ class PrintExec(ME.MiniExec):
         env2 = {}
         for p_, a in zip(g.params, args):
             a0 = F.strip(a)
-            if a0['k'] == 'StringLiteral':
-                env2[p_['n']] = a0['s']               # a literal passed to a helper: printed as it is, and it is not NULL
+            if a0['k'] == 'StringLiteral' or (a0['k'] in ('ConditionalOperator', 'ParenExpr') and isinstance(self.strval(a0, env), str)):
+                env2[p_['n']] = self.strval(a0, env)   # a string passed to a helper: printed as it is, and it is not NULL
                 continue
             if a0['k'] == 'DeclRefExpr' and a0.get('dk') == 'func':
                 env2[p_['n']] = ('func', a0['n'])    # a function passed by name: calls through the parameter are dispatched
@@ -281,6 +281,27 @@ class PrintExec(ME.MiniExec):
             return sub.retval
         return None
 
+    def strval(self, a, env):
+        """a C string argument as text: a literal, a `c ? "a" : "b"` selection, a parameter bound to a literal, an accessor result"""
+        a0 = F.strip(a)
+        if a0['k'] == 'StringLiteral':
+            return a0['s']
+        if a0['k'] == 'ConditionalOperator':
+            try:
+                c = self.val(a0['c'][0], env)
+            except F.AnalysisBroken:
+                c = None
+            if c is None:
+                return None
+            return self.strval(a0['c'][1] if c else a0['c'][2], env)
+        if a0['k'] == 'ParenExpr':
+            return self.strval(a0['c'][0], env)
+        try:
+            v = self.val(a0, env)
+        except F.AnalysisBroken:
+            v = None
+        return v if isinstance(v, str) else None
+
     def fmt(self, a, env):
         a = F.strip(a)
         if a['k'] == 'StringLiteral':
@@ -293,7 +314,22 @@ class PrintExec(ME.MiniExec):
         raise F.AnalysisBroken('format `%s` is not a literal' % F.src(a)[:60])
 
     def run(self, s, env):
+        if s is not None and s['k'] == 'DeclStmt' and self.concrete_ints:
+            binds = {}
+            for d in s['decls']:
+                if d.get('init') is not None and F.strip(d['init'])['k'] in ('StringLiteral', 'ConditionalOperator', 'ParenExpr'):
+                    sv = self.strval(d['init'], env)
+                    if isinstance(sv, str):
+                        binds[d['n']] = sv
+            if binds:
+                r_ = self._run_rest(s, env)
+                env.update(binds)
+                return r_
+        return self._run_rest(s, env)
+
+    def _run_rest(self, s, env):
         if s is not None and s['k'] == 'DeclStmt':
+            pass
             # struct copy `T v = a.b.c;`: the fields of the source become fields of v
             for d in s['decls']:
                 if d.get('init') is not None:
@@ -326,10 +362,7 @@ class PrintExec(ME.MiniExec):
                     a = rest.pop(0) if rest else None
                     if m.group(1) == 's':
                         if self.concrete_ints and a is not None:
-                            try:
-                                v = self.val(a, env)
-                            except F.AnalysisBroken:
-                                v = None
+                            v = self.strval(a, env)
                             if isinstance(v, str):
                                 return v
                         return 'X'
